@@ -430,6 +430,6 @@ pub fn strategy(g: &GenCfg) -> BoxedStrategy<Case> {
     });
     let g2 = g.clone();
     (proptest::collection::vec(actor, 1..=5), gen::config(&g2), prop_oneof![2 => gen::schedule(&g2, false), 1 => gen::schedule(&g2, true)])
-        .prop_map(|(actors, (workers, pool, feat), sched)| Case { fam: "timed".into(), workers, pool, feat, cfg: vec![], actors, sched })
+        .prop_map(|(actors, (workers, pool, feat), sched)| Case { fam: "timed".into(), workers, pool, feat, cfg: vec![], actors, sched, weak: 0 })
         .boxed()
 }
